@@ -28,7 +28,7 @@ RULE = ("scenario = establishment outcome x 0..4 messages with per-request answe
         "silence / other status / exception) and timing (tie, hops) x server-pushed notifications/requests x chunking of the event bytes x "
         "optional stream death x exit path at a generated instant; non-trivial = establishment was not the plain immediate announcement, or a "
         "request was answered over the event stream, or the exit was not the plain normal path, or the stream was chunked inside an event")
-PROBES = ["establish_failed_status", "establish_no_announcement", "announce_at_timeout_edge", "event_before_202", "event_after_202", "silence_timeout",
+PROBES = ["event_then_post_failed", "establish_failed_status", "establish_no_announcement", "announce_at_timeout_edge", "event_before_202", "event_after_202", "silence_timeout",
           "post_failed", "chunk_inside_event", "chunk_inside_utf8", "server_push_delivered", "exit_cancel_scope", "exit_task_cancel",
           "exit_exception", "cancel_while_waiting_for_event", "stream_died", "int_request_id", "push_right_after_response_event"]
 TIERS = {"quick": {"runs": 12000, "wall": 45.0}, "thorough": {"runs": 800000, "wall": 560.0}}
@@ -44,7 +44,7 @@ BASE = "http://sim.test"
 EST_KINDS = ["ok", "ok", "ok", "ok", "status", "connect_error", "empty_stream", "never_announce", "slow_announce", "connect_timeout", "ends_after_comment"]
 FORMS = ["event_endpoint", "event_endpoint", "data_only_messages", "data_only_mcp", "query_params", "full_url", "event_endpoint_crlf"]
 MODES = ["200_body", "200_body", "202_then_event", "202_then_event", "event_then_202", "202_silence", "other_status_json", "other_status_plain",
-         "exc", "200_badjson", "202_then_event_dataonly"]
+         "exc", "200_badjson", "202_then_event_dataonly", "event_then_exc", "event_then_status"]
 TEXTS = ["plain", "é€\U0001F600", "ls\u2028ps\u2029nel\u0085end"]
 
 
@@ -66,9 +66,11 @@ def generate(rng: random.Random, tier: str) -> dict:
              "event_at": rng.choice([0, 1, 3, 40, 200]), "hops": rng.choice([0, 0, 1, 3]), "tie": rng.choice([0, 2]),
              "status": rng.choice([400, 404, 500, 201, 204]), "exc": rng.choice(["ConnectError", "ReadTimeout", "RemoteProtocolError", "ReadError"]),
              "text": rng.choice(TEXTS)}
-        if mode == "event_then_202":
+        if mode in ("event_then_202", "event_then_exc", "event_then_status"):
             m["post_latency"] = rng.choice([5, 50, 300])
             m["event_at"] = rng.choice([0, 1, m["post_latency"] - 1, m["post_latency"]])
+        if mode == "event_then_exc":
+            m["exc"] = rng.choice(["ConnectError", "RemoteProtocolError", "ReadError"])  # not the timeouts: those fire at `timeout`, not at post_latency
         if mode == "202_then_event" and rng.random() < 0.25:
             m["event_at"] = m["post_latency"] + tl + rng.choice([-10, -1, 0, 1, 10]) - m["post_latency"]  # around the per-request timeout
         if not notif:
@@ -134,7 +136,7 @@ def simplify(scn):
         for key, val in (("gap", 0), ("hops", 0), ("tie", 0), ("push_after", False), ("text", "plain")):
             if m.get(key) != val:
                 c = copy.deepcopy(scn); c["msgs"][i][key] = val; yield c
-        if m["post_latency"] > 1 and m["mode"] != "event_then_202":
+        if m["post_latency"] > 1 and m["mode"] not in ("event_then_202", "event_then_exc", "event_then_status"):
             c = copy.deepcopy(scn); c["msgs"][i]["post_latency"] = 1; yield c
 
 
@@ -314,6 +316,12 @@ def execute(scn: dict) -> dict:
             if mode in ("202_then_event", "202_then_event_dataonly", "event_then_202"):
                 sim.at(sim.now() + ticks(m["event_at"]), push_response, mode == "202_then_event_dataonly", tie=m["tie"], hops=m["hops"])
                 return {"latency": lat, "status": 202, "chunks": [(0, b"Accepted")]}
+            if mode in ("event_then_exc", "event_then_status"):
+                # the server answers on the event stream, but the POST's own acknowledgement is lost / fails
+                sim.at(sim.now() + ticks(m["event_at"]), push_response, False, tie=m["tie"], hops=m["hops"])
+                if mode == "event_then_exc":
+                    return {"latency": lat, "exc": m["exc"]}
+                return {"latency": lat, "status": m["status"] if m["status"] not in (201, 204) else 500, "headers": {"content-type": "text/plain"}, "chunks": [(0, b"oops")]}
             if mode == "202_silence":
                 return {"latency": lat, "status": 202, "chunks": [(0, b"")]}
             if mode == "other_status_json":
@@ -502,6 +510,8 @@ def execute(scn: dict) -> dict:
             cut_short = interrupted and t_end <= due
             late_answer = (mode in ("202_then_event", "202_then_event_dataonly", "event_then_202") and p.get("event_pushed")
                            and (p["event_t"] - (t_post + ticks(m["post_latency"]))) >= tl)
+            if mode in ("event_then_exc", "event_then_status") and p.get("event_pushed") and p["event_t"] >= t_post + ticks(m["post_latency"]):
+                late_answer = True  # the POST had already failed when the server answered on the stream anyway: outside the sentence
             if len(mine) == 2 and late_answer and "error" in mine[0][2] and mine[1][2] == p.get("resp_obj"):
                 probe("server_answered_after_synthesised_timeout")  # the sentence lists "never", not "too late": accepted
             elif len(mine) > 1:
@@ -533,6 +543,8 @@ def execute(scn: dict) -> dict:
                     probe("silence_timeout")
                 if mode in ("exc", "other_status_plain", "200_badjson"):
                     probe("post_failed")
+                if mode in ("event_then_exc", "event_then_status") and p.get("event_pushed") and p["event_t"] < t_post + ticks(m["post_latency"]):
+                    probe("event_then_post_failed")
                 if srv_answered not in (None, "either") and g != srv_answered:
                     cause = "synthesised-instead-of-server-answer" if "error" in g and "result" in (srv_answered or {}) else "content-differs"
                     V("terminal-content", f"{mode}:{cause}", f"request #{k} ({mode}): terminal {g!r:.200}, the server answered {srv_answered!r:.200}")
